@@ -64,6 +64,15 @@ SpecialCases ==
             /\ Emit1(X1[dt], W0[dt], Bia(dt, 2), attrs, "_zero_kernel") /\ Emit1(X1f[dt], W1[dt], Nil, attrs, "_one_infinity")
       /\ \A attrs \in {<<>>, <<AIs("pads", <<0, 1, 0, 1>>)>>} : Emit1(X2, W2, Nil, attrs, "_2d") /\ Emit1(X2, W2, Bia("f32", 2), attrs, "_2d")
 
+\* tiling law (Outcome.tla): the samples of a batch are convolved independently; the harness repeats the batch to tens of thousands of samples
+TileConvCases ==
+   \A v \in {<<<<2, 1, 4>>, <<2, 1, 2>>, <<>>>>, <<<<2, 2, 5>>, <<1, 2, 3>>, <<AIs("strides", <<2>>), AIs("pads", <<1, 1>>)>>>>,
+              <<<<2, 1, 3, 3>>, <<2, 1, 2, 2>>, <<>>>>, <<<<3, 1, 3, 4>>, <<1, 1, 2, 2>>, <<AIs("dilations", <<1, 2>>)>>>>} : \A bias \in BOOLEAN :
+      LET X == Img("f32", v[1]) W == Ker("f32", v[2]) B == IF bias THEN Bia("f32", v[2][1]) ELSE Nil
+          ins == IF bias THEN <<X, W, B>> ELSE <<X, W>> IN
+      TileLaw(LAMBDA i : SemConv(i[1], i[2], IF bias THEN i[3] ELSE Nil, v[3]), ins, {1}) =>
+         P(CaseRec("tile", v[3], ins, SemConv(X, W, B, v[3]), <<"value", "f32", "tile_law">>) @@ [tile |-> TileField({1})])
+
 \* long images (an output count that is no multiple of a block size)
 LongConvCases ==
    /\ P(ConvCase("long", <<1, 1, 40003>>, <<1, 1, 2>>, <<>>, TRUE, "f32", <<"1d", "long">>))
@@ -75,7 +84,7 @@ Init ==
    \/ ("conv2d" \in Fams /\ st \in [fam : {"conv2d"}, H : 2..MaxHW, W : 2..MaxHW, kh : 1..MaxK2, kw : 1..MaxK2, done : {FALSE}])
 Emit ==
    /\ ~st.done
-   /\ CASE st.fam = "conv1d" -> Conv1D(st.L, st.k, st.s, st.d) /\ (st.L = 1 /\ st.k = 1 /\ st.s = 1 /\ st.d = 1 => SpecialCases /\ LongConvCases)
+   /\ CASE st.fam = "conv1d" -> Conv1D(st.L, st.k, st.s, st.d) /\ (st.L = 1 /\ st.k = 1 /\ st.s = 1 /\ st.d = 1 => SpecialCases /\ LongConvCases /\ TileConvCases)
         [] st.fam = "conv2d" -> Conv2D(st.H, st.W, st.kh, st.kw)
    /\ st' = [st EXCEPT !.done = TRUE]
 Next == Emit
